@@ -383,6 +383,59 @@ func runC13WS(sendTimeoutMs, pingMs int) {
 	emit(M{"op": "c13ws", "send_timeout_ms": sendTimeoutMs, "ping_ms": pingMs, "out": out})
 }
 
+// an idle session whose peer does not read, ended by the peer going away while a ping waits for its pong
+type idleHandler struct{ ended chan time.Duration }
+
+func (h *idleHandler) ServeNostr(ctx context.Context, send chan<- mocrelay.ServerMsg, recv <-chan mocrelay.ClientMsg) error {
+	start := time.Now()
+	<-ctx.Done()
+	h.ended <- time.Since(start)
+	return ctx.Err()
+}
+
+func runC13WSIdle(pingMs int) {
+	time.Sleep(time.Millisecond)
+	base, _ := repoGoroutines()
+	h := &idleHandler{ended: make(chan time.Duration, 1)}
+	opt := mocrelay.NewDefaultRelayOption()
+	opt.SendTimeout = 5 * time.Second
+	opt.PingDuration = time.Duration(pingMs) * time.Millisecond
+	relay := mocrelay.NewRelay(h, opt)
+	srv := httptest.NewServer(relay)
+	ctx, cancel := context.WithCancel(context.Background())
+	conn, _, err := websocket.Dial(ctx, "ws"+strings.TrimPrefix(srv.URL, "http"), nil)
+	out := M{}
+	if err != nil {
+		out["dial_error"] = err.Error()
+	} else {
+		// the peer never reads, so the first ping (after pingMs) stays without a pong; then the peer disappears
+		time.Sleep(time.Duration(4*pingMs) * time.Millisecond)
+		conn.CloseNow()
+		select {
+		case d := <-h.ended:
+			out["ended"] = true
+			out["ended_ms"] = d.Milliseconds()
+		case <-time.After(4 * time.Second):
+			out["ended"] = false
+		}
+	}
+	cancel()
+	srv.CloseClientConnections()
+	srv.Close()
+	left, sample := waitGoroutines(base, 3*time.Second)
+	if left < 0 {
+		left = 0
+	}
+	out["leftover"] = left
+	if left > 0 {
+		if len(sample) > 1500 {
+			sample = sample[:1500]
+		}
+		out["sample"] = sample
+	}
+	emit(M{"op": "c13wsidle", "ping_ms": pingMs, "out": out})
+}
+
 func init() {
 	props["c13"] = propRunner{
 		gen: func(r *Rng, n int, tier string) {
@@ -394,6 +447,10 @@ func init() {
 					runC13WS(st, ping)
 					done++
 				}
+			}
+			for _, ping := range []int{10, 25} {
+				runC13WSIdle(ping)
+				done++
 			}
 			for done < n && c13Stuck < 6 && c13Leaks < 12 {
 				spec := genC13Spec(r, g)
@@ -433,6 +490,8 @@ func init() {
 					runC13Case(c13SpecFromJ(l["spec"]), hist, int(jnum(l["cut"])), str(l["ending"]), str(l["peer"]))
 				case "c13ws":
 					runC13WS(int(jnum(l["send_timeout_ms"])), int(jnum(l["ping_ms"])))
+				case "c13wsidle":
+					runC13WSIdle(int(jnum(l["ping_ms"])))
 				}
 			}
 		},
